@@ -123,6 +123,7 @@ func (w *World) finalChecks(capHit bool) {
 			dr := rt.dirs[d]
 			dr.mu.Lock()
 			read, wok, exp, rend, werr := dr.read, dr.writtenOK, dr.expected, dr.readEnd, dr.writeErr
+			completeAt, lastWrite := dr.completeAt, dr.lastWrite
 			dr.mu.Unlock()
 			if exp > 0 && read == 0 {
 				nontrivial = false
@@ -148,7 +149,16 @@ func (w *World) finalChecks(capHit bool) {
 					cls = "stalled"
 				}
 				w.violate(prop, cls, "%s dir %d: %d of %d bytes delivered (written ok %d); reader end: %q", rt.key, d, read, exp, wok, why)
-			} else if werr != "" {
+			} else if s.Liveness != nil && exp > 0 {
+				from := lastWrite
+				if heal := time.Duration(s.Net.HealUs) * time.Microsecond; heal > from {
+					from = heal
+				}
+				if bound := time.Duration(s.Liveness.BoundUs) * time.Microsecond; completeAt > from+bound {
+					w.violate(prop, "progress-too-slow", "%s dir %d: last byte read at %v, %v after faults stopped / the last write returned (bound %v)", rt.key, d, completeAt, completeAt-from, bound)
+				}
+			}
+			if read == exp && werr != "" {
 				w.violate(prop, "write-error", "%s dir %d: Write failed with %q although every byte was delivered", rt.key, d, werr)
 			}
 		}
